@@ -147,7 +147,7 @@ pub fn run(ctx: &mut Ctx) {
     for (n, ok) in r3::selftest() {
         ctx.selftest(&n, ok);
     }
-    ctx.require(&["annex_kat", "len_sweep", "fixed_k_exact", "free_k", "roundtrip", "ref_made_decrypts", "openssl_made_decrypts", "all_zero_msg", "leading_zero_msg", "long_msg", "kdf_counter_beyond_16_bits", "kdf", "kdf_klen_mod32=00", "c1c2c3_uncompressed", "c1c2c3_compressed", "c1c3c2_uncompressed", "c1c3c2_compressed", "klen_mod32=00", "key_from_constructor", "key_from_gen_keypair", "key_with_jacobian_public_point", "crafted_recipient_key", "crafted_c1_decrypts", "many_calls_one_process"]);
+    ctx.require(&["annex_kat", "len_sweep", "fixed_k_exact", "free_k", "roundtrip", "ref_made_decrypts", "openssl_made_decrypts", "all_zero_msg", "leading_zero_msg", "long_msg", "kdf_counter_beyond_16_bits", "kdf", "kdf_klen_mod32=00", "c1c2c3_uncompressed", "c1c2c3_compressed", "c1c3c2_uncompressed", "c1c3c2_compressed", "klen_mod32=00", "key_from_constructor", "key_from_gen_keypair", "key_with_jacobian_public_point", "crafted_recipient_key", "crafted_c1_decrypts", "many_calls_one_process", "shared_point_coordinate_leading_zero"]);
     let c = r2::curve();
 
     // --- Annex example
@@ -160,6 +160,37 @@ pub fn run(ctx: &mut Ctx) {
         ctx.sample(json!({"annex": {"msg": "encryption standard", "C1.x": "04EBFC71..9A73", "C3": "59983C18..8766", "C2": "21886CA9..1EFA"}}));
     }
 
+    // --- nonces searched (by the reference) so that a coordinate of the SHARED point [k]P begins with a zero byte (1 in 128):
+    // x2 and y2 enter the KDF and C3 as fixed 32-byte strings, a conversion that drops leading zeros is wrong only here
+    {
+        let mut ps = ctx.prng("shared_zero");
+        for which in 0..4u64 {
+            let sub = ps.next();
+            if !ctx.mine(which + 2) {
+                continue;
+            }
+            let mut q = Prng::new(sub, "sz");
+            let d = rand_scalar(&mut q, &(&c.n - 1u32));
+            let pk = r2::mul(&d, &r2::g()).unwrap();
+            let mut found = None;
+            for _ in 0..4000 {
+                let k = rand_scalar(&mut q, &c.n);
+                let sh = r2::mul(&k, &Some(pk.clone())).unwrap();
+                let (xb, yb) = (r2::b32(&sh.0), r2::b32(&sh.1));
+                if (which % 2 == 0 && xb[0] == 0) || (which % 2 == 1 && yb[0] == 0) {
+                    found = Some(k);
+                    break;
+                }
+            }
+            let Some(k) = found else { continue };
+            let msg = q.bytes(24);
+            ctx.class("shared_point_coordinate_leading_zero");
+            enc_case(ctx, &d, &msg, Some(&k), LAYOUTS[which as usize], "shared_point_coordinate_leading_zero");
+            if let Some(ct) = r2::encrypt(&pk, &msg, &k, LAYOUTS[which as usize].0, LAYOUTS[which as usize].1) {
+                expect_decrypt(ctx, &d, &ct, &msg, LAYOUTS[which as usize], "ref_made_decrypts");
+            }
+        }
+    }
     // --- points crafted so that an addition of the on-curve test lands on a carry / reduction boundary (see
     // sm2x::crafted_points): as the RECIPIENT's public key (exact ciphertext for an injected k) and as the C1 of a
     // reference-made ciphertext (must decrypt)
